@@ -313,7 +313,7 @@ func nmfJudge(k nmfCase) (sig, detail string) {
 
 func c17Fields() (names []string, width map[string]int) {
 	width = map[string]int{}
-	for _, n := range of.VerifRegisteredFieldNames() {
+	for _, n := range hookRegisteredNames() {
 		cf, ok := spec.OXMByName[n]
 		if !ok {
 			continue
